@@ -19,26 +19,28 @@ import Kopf.Lemmas.C07_Barrier
 namespace Kopf.C07
 
 /-- **The barrier.** If change handlers run in iteration `i` (at time `t`), then the version of the
-    last own patch has been dequeued by the worker after that patch — in `mid` or as `i`'s own event —
+    last own patch has been dequeued by the worker — in `mid` or as `i`'s own event, i.e. after that
+    patch; or it is the version of `k`'s own event, which is the case exactly when the PATCH changed
+    nothing on the server (fix 460c956: nothing is awaited then, the view at hand IS the patched one) —
     or the consistency timeout has elapsed since the server applied the patch. -/
 theorem barrier_partial (T idle : Int) (pre mid post : List Step) (k i : Iter) (p : Ver) (t : Int)
     (hwf : wf T idle Cfg.init (pre ++ .event k :: (mid ++ .event i :: post)) = true)
     (hk : k.patched = some p)
     (hmid : ∀ st ∈ mid, st.patched = none)
     (hran : (outcomeAt T (exec T Cfg.init (pre ++ .event k :: mid)) i).handlers = some t) :
-    some p ∈ mid.map Step.ver ++ [i.ver] ∨ k.tp + T ≤ t := by
+    some p ∈ k.ver :: (mid.map Step.ver ++ [i.ver]) ∨ k.tp + T ≤ t := by
   obtain ⟨_, hokk, hrest⟩ := wf_split hwf
   obtain ⟨hwfmid, hoki, _⟩ := wf_split hrest
-  have h0 : Cover T (next T (exec T Cfg.init pre) (.event k)) p k.tp False := cover_after_patch hokk hk
+  have h0 : Cover T (next T (exec T Cfg.init pre) (.event k)) p k.tp (k.ver = some p) := cover_after_patch hokk hk
   have h1 := cover_exec mid _ _ h0 hwfmid hmid
   have hcfg : exec T Cfg.init (pre ++ .event k :: mid) = exec T (next T (exec T Cfg.init pre) (.event k)) mid := by
     rw [exec_append, exec_cons]
   rw [hcfg] at hran
   have hclk := (okStep_event hoki).1
   rcases cover_handlers h1 hclk hran with (hf | hs) | hv | ht
-  · exact hf.elim
-  · left; exact List.mem_append_left _ hs
-  · left; exact List.mem_append_right _ (by simp [hv])
+  · left; rw [hf]; exact List.mem_cons_self ..
+  · left; exact List.mem_cons_of_mem _ (List.mem_append_left _ hs)
+  · left; exact List.mem_cons_of_mem _ (List.mem_append_right _ (by simp [hv]))
   · exact Or.inr ht
 
 -- "Regardless of how many foreign events arrive in between": `mid` is universally quantified above, no
@@ -47,7 +49,7 @@ example (n : Nat) (T idle : Int) (pre mid post : List Step) (k i : Iter) (p : Ve
     (hwf : wf T idle Cfg.init (pre ++ .event k :: (mid ++ .event i :: post)) = true)
     (hk : k.patched = some p) (hmid : ∀ st ∈ mid, st.patched = none)
     (hran : (outcomeAt T (exec T Cfg.init (pre ++ .event k :: mid)) i).handlers = some t) :
-    some p ∈ mid.map Step.ver ++ [i.ver] ∨ k.tp + T ≤ t :=
+    some p ∈ k.ver :: (mid.map Step.ver ++ [i.ver]) ∨ k.tp + T ≤ t :=
   barrier_partial T idle pre mid post k i p t hwf hk hmid hran
 
 /-- **The full clause is false: background patches are not guarded** (finding C07-F1). A timer's (or a
@@ -77,7 +79,7 @@ theorem barrier_every_patch_partial (T idle : Int) (pre mid post : List Step) (k
     ∃ (a : List Step) (j : Iter) (q : Ver) (b : List Step),
       pre ++ .event k :: mid = a ++ .event j :: b ∧ pre.length ≤ a.length ∧ j.patched = some q ∧
       (∀ st ∈ b, st.patched = none) ∧ k.tp ≤ j.tp ∧
-      (some q ∈ b.map Step.ver ++ [i.ver] ∨ j.tp + T ≤ t) := by
+      (some q ∈ j.ver :: (b.map Step.ver ++ [i.ver]) ∨ j.tp + T ≤ t) := by
   rcases last_patch_split mid with hnone | ⟨a', x, q, b, hmid, hx, hb⟩
   · exact ⟨pre, k, p, mid, rfl, Nat.le_refl _, hk, hnone, Int.le_refl _,
       barrier_partial T idle pre mid post k i p t hwf hk hnone hran⟩
@@ -114,18 +116,21 @@ theorem barrier_view_partial (T idle : Int) (pre mid post : List Step) (k i : It
     (hk : k.patched = some p)
     (hmid : ∀ st ∈ mid, st.patched = none)
     (hv : i.ver = some v)
+    (hordk : ∀ u, k.ver = some u → u.n ≤ v.n)
     (hord : ∀ st ∈ mid, ∀ u, st.ver = some u → u.n ≤ v.n)
     (hran : (outcomeAt T (exec T Cfg.init (pre ++ .event k :: mid)) i).handlers = some t) :
     p.n ≤ v.n ∨ k.tp + T ≤ t := by
   rcases barrier_partial T idle pre mid post k i p t hwf hk hmid hran with h | h
   · left
-    rcases List.mem_append.mp h with h | h
-    · obtain ⟨st, hst, hver⟩ := List.mem_map.mp h
-      exact hord st hst p hver
-    · simp only [List.mem_singleton] at h
-      rw [hv] at h
-      cases h
-      exact Nat.le_refl _
+    rcases List.mem_cons.mp h with h | h
+    · exact hordk p h.symm
+    · rcases List.mem_append.mp h with h | h
+      · obtain ⟨st, hst, hver⟩ := List.mem_map.mp h
+        exact hord st hst p hver
+      · simp only [List.mem_singleton] at h
+        rw [hv] at h
+        cases h
+        exact Nat.le_refl _
   · exact Or.inr h
 
 /-- **Not delayed.** The processor is a sequence of stages run against one clock (`runStages`); only the
@@ -255,24 +260,66 @@ theorem never_arrives (s : WState) (e : Ver) (v : Option Ver) (he : s.expected =
   · have := hv e h; rw [hn] at this; cases this
   · simp [h]
 
-/-- **Observation (liveness, outside C07's clauses): a no-op write arms the barrier for nothing.** The
-    processor PATCHes at 102, the server changes nothing and answers with the version the worker has just
-    consumed (105). The worker now expects 105, which cannot come again; a genuine foreign change (106)
-    arriving at 110 is held back, and its handlers run only at the deadline 103 + 320 — although no own
-    write is outstanding. C07 (a safety property) is not violated: nothing runs on an older view. -/
-theorem noop_write_stall_witness :
-    ∃ (k i : Iter) (v : Ver),
-      k.ver = some v ∧ k.patched = some v ∧                                   -- the PATCH was a no-op
-      wf 320 320 Cfg.init [.event k, .event i] = true ∧
-      (exec 320 Cfg.init [.event k]).s = { expected := some v, deadline := some 423 } ∧
-      (∃ u, i.ver = some u ∧ v.n < u.n) ∧                                     -- a newer, foreign version
-      (outcomeAt 320 (exec 320 Cfg.init [.event k]) i).handlers = some 423 ∧  -- waits out the whole timeout
-      i.now = 110 :=
+/-- **A PATCH that changed nothing arms nothing** (fix 460c956). The server answers a no-op PATCH with the
+    version it already had — the one of the event being processed. The worker keeps what the arrival
+    of that event left: no new expectation, no new deadline. -/
+theorem noop_patch_does_not_arm (T : Int) (s : WState) (it : Iter) (v : Ver)
+    (hv : it.ver = some v) (hp : it.patched = some v) :
+    (stepEvent T s it).1 = arrive s it.ver :=
+  stepEvent_state_noop hp hv
+
+/-- … and, at the level of runs: if the worker expected nothing (or exactly this event) when such an
+    iteration began, it expects nothing afterwards, whatever else the iteration did; so the NEXT event is
+    processed with `consistency_time = None`: no sleep, and its change handlers are held back only for a
+    patch that was pending at its entry — the no-op cycle has left the worker consistent. -/
+theorem noop_cycle_leaves_consistent (T : Int) (pre : List Step) (k j : Iter) (v : Ver)
+    (hv : k.ver = some v) (hp : k.patched = some v)
+    (hs : arrive (exec T Cfg.init pre).s k.ver = WState.init) :
+    (exec T Cfg.init (pre ++ [.event k])).s = WState.init
+    ∧ (outcomeAt T (exec T Cfg.init (pre ++ [.event k])) j).given = none
+    ∧ (outcomeAt T (exec T Cfg.init (pre ++ [.event k])) j).slept = none
+    ∧ ((outcomeAt T (exec T Cfg.init (pre ++ [.event k])) j).held = true → j.patchInit = false) := by
+  have h1 : (exec T Cfg.init (pre ++ [.event k])).s = WState.init := by
+    rw [exec_append]
+    show (stepEvent T (exec T Cfg.init pre).s k).1 = _
+    rw [noop_patch_does_not_arm T _ k v hv hp, hs]
+  have hd : (arrive (exec T Cfg.init (pre ++ [.event k])).s j.ver).deadline = none := by rw [h1, arrive_init]; rfl
+  have ho : outcomeAt T (exec T Cfg.init (pre ++ [.event k])) j = process none j := by
+    show process (arrive (exec T Cfg.init (pre ++ [.event k])).s j.ver).deadline j = _
+    rw [hd]
+  refine ⟨h1, ?_, ?_, ?_⟩
+  · rw [ho]; exact process_given none j
+  · rw [ho]; exact (process_none j).1
+  · rw [ho, (process_none j).2.2]
+    cases j.patchInit <;> simp
+
+/-- The worker's feedback as it was BEFORE fix 460c956 (armed after every PATCH). -/
+def feedbackPre460c956 (T : Int) (s : WState) (it : Iter) : WState :=
+  match it.patched with
+  | some p => if T ≠ 0 then { expected := some p, deadline := some (it.tret + T) } else s
+  | none => s
+
+/-- **Regression witness.** With the old feedback, a no-op PATCH at 102 (answered with 105, the version
+    just processed) made the worker expect 105 until 103 + 320; a genuine foreign change (106) arriving
+    at 110 with a non-empty patch at the barrier (e.g. an `on.event` handler's constant result, built in
+    every cycle) is held back and — as no sleep is taken with a non-empty patch — so is every later one,
+    even after the deadline (`now = 500`): the state-dependent handlers starve. With the repaired feedback
+    the same iterations run their handlers at once. -/
+theorem noop_stall_regression_witness :
+    ∃ (k i late : Iter) (v : Ver),
+      k.ver = some v ∧ k.patched = some v ∧ i.patchMid = false ∧ late.patchMid = false ∧ late.now = 500 ∧
+      feedbackPre460c956 320 (arrive WState.init k.ver) k = { expected := some v, deadline := some 423 } ∧
+      (process (some 423) i).held = true ∧ (process (some 423) late).held = true ∧   -- before the fix
+      (exec 320 Cfg.init [.event k]).s = WState.init ∧                              -- after the fix
+      (outcomeAt 320 (exec 320 Cfg.init [.event k]) i).handlers = some 110 ∧
+      (outcomeAt 320 (exec 320 Cfg.init [.event k, .event i]) late).handlers = some 500 :=
   ⟨{ ver := some ⟨105, false⟩, now := 100, dur := 0, pressure := false, wake := none, lag := 0, gone := false,
      required := true, patchInit := true, patchMid := true, patched := some ⟨105, false⟩, tp := 102, tret := 103 },
    { ver := some ⟨106, false⟩, now := 110, dur := 0, pressure := false, wake := none, lag := 0, gone := false,
-     required := true, patchInit := true, patchMid := true, patched := none, tp := 423, tret := 423 },
-   ⟨105, false⟩, rfl, rfl, by decide, by decide, ⟨⟨106, false⟩, rfl, by decide⟩, by decide, rfl⟩
+     required := true, patchInit := true, patchMid := false, patched := some ⟨106, false⟩, tp := 112, tret := 113 },
+   { ver := some ⟨107, false⟩, now := 500, dur := 0, pressure := false, wake := none, lag := 0, gone := false,
+     required := true, patchInit := true, patchMid := false, patched := some ⟨107, false⟩, tp := 502, tret := 503 },
+   ⟨105, false⟩, rfl, rfl, rfl, rfl, rfl, by decide, by decide, by decide, by decide, by decide, by decide⟩
 
 /-! ### Non-vacuity: concrete iterations (T = 5 s = 320 ticks, idle 320) -/
 
